@@ -363,6 +363,9 @@ func RunCheck(opts CheckOpts) *CheckReport {
 				// vacuity probes decide nothing by themselves: an undecided probe is recorded, not reported
 				to = 6 * time.Second
 			}
+			if !o.Probe && o.MinTimeout > to {
+				to = o.MinTimeout
+			}
 			ans := Solve(o.Query, o.Name, SolverCfg{Timeout: to, Seed: opts.Seed, WorkDir: work, All: opts.Tier == "thorough", Order: o.Order})
 			if o.Expect == "unsat" && ans.Result == "sat" && len(o.Refine) > 0 {
 				// counterexample refinement: re-solve with the exact facts that were abstracted for the proof
